@@ -30,7 +30,7 @@ BAD_PROTOCOLS = [b"HTTP/1.0", b"HTTP/1.10", b"http/1.1", b"HTTP/1.1 ", b"", b"HT
 GOOD_CODES = [b"200", b"404", b"999", b"0", b"100", b"099", b"000200", b"1", b"204", b"304", b"500"]
 BAD_CODES = [b"1000", b"+200", b"-1", b"2 00", b"0x10", b"", b"18446744073709551616", b"18446744073709551615",
              b"20a", b"2_0", b"9999", b" 200", b"1e2", b"\xef\xbc\x91"]
-REASONS = [b"OK", b"Not Found", b"", b"  two  spaces ", "r\u00e9ason".encode(), b"a:b", b"HTTP/1.1 200 OK", b"x\ty"]
+REASONS = [b"OK", b"Not Found", b"", b"OK\r", b"\r", b"a\rb", b"  two  spaces ", "r\u00e9ason".encode(), b"a:b", b"HTTP/1.1 200 OK", b"x\ty"]
 
 NEUTRAL_NAMES = [b"Host", b"X-Foo", b"A", b"Accept", b"x-y_z", b"Date", b"X!", b"Set-Cookie", b"1"]
 FRAMING_NAMES = [b"Content-Length", b"Transfer-Encoding", b"Trailer", b"Content-Encoding", b"Content-Type"]
@@ -263,7 +263,7 @@ def hexsize(rng, n):
     return s
 
 
-EXTS = [b"", b"", b"", b";a", b";a=b", b';a="q z"', b";a;b=c", b"; a", b";", b";=", b";\x00", b";a;;b", b";a=\n", b";\t"]
+EXTS = [b"", b"", b"", b";a", b";a=b", b";x\r", b";\r", b';a="q z"', b";a;b=c", b"; a", b";", b";=", b";\x00", b";a;;b", b";a=\n", b";\t"]
 # extensions outside the ASCII text the round-trip direction of C05 is stated for (obs-text): outcome compared with the model only
 ODD_EXTS = [b";a=\xff", b';q="\xc3\xa9"', b";\xc3"]
 BAD_SIZES = [b"+3", b"g", b"", b" 3", b"3 ", b"-1", b"0x3", b"3,3", b"ffffffffffffffff", b"10000000000000000",
